@@ -266,3 +266,45 @@ impl<T: Clone + Default> From<&[T]> for Vec<T> {
         v
     }
 }
+
+/// `std::collections::VecDeque` on top of the vector model (front operations shift).
+#[derive(Clone, Debug, Default)]
+pub struct VecDeque<T: Clone + Default> {
+    v: Vec<T>,
+}
+impl<T: Clone + Default> VecDeque<T> {
+    pub fn new() -> Self {
+        Self { v: Vec::new() }
+    }
+    pub fn with_capacity(_c: usize) -> Self {
+        Self::new()
+    }
+    pub fn len(&self) -> usize {
+        self.v.len()
+    }
+    pub fn is_empty(&self) -> bool {
+        self.v.len() == 0
+    }
+    pub fn push_back(&mut self, t: T) {
+        self.v.push(t)
+    }
+    pub fn push_front(&mut self, t: T) {
+        self.v.insert(0, t)
+    }
+    pub fn pop_front(&mut self) -> Option<T> {
+        if self.v.len() == 0 {
+            None
+        } else {
+            Some(self.v.remove(0))
+        }
+    }
+    pub fn pop_back(&mut self) -> Option<T> {
+        self.v.pop()
+    }
+    pub fn front(&self) -> Option<&T> {
+        self.v.first()
+    }
+    pub fn iter(&self) -> core::slice::Iter<'_, T> {
+        self.v.iter()
+    }
+}
